@@ -122,14 +122,7 @@ class State:
         elif kind == "iadd":
             v = self.fresh()
             t = op[1]
-            if t.startswith("n."):
-                o = r["n"]
-                setattr(o, t[2:], getattr(o, t[2:]).__iadd__(v))
-            elif U.container_of(t) == "l":
-                o = r["l"]
-                o[int(t[1])] = o[int(t[1])].__iadd__(v)
-            else:
-                r[t] = r[t].__iadd__(v)
+            U.assign(r, t, U.getref(r, t).__iadd__(v))
             if t in self.defs:
                 self.defs[t] = ("add", self.defs[t], ("const", v))
                 ex.notes["inplace_on_expr"] = ex.notes.get("inplace_on_expr", 0) + 1
@@ -177,6 +170,8 @@ class State:
 
 
 def _refname(L):
+    if L.startswith("K-"):
+        return f"K[{L[1:]}]"
     if L.startswith("n."):
         return f"d['n'].{L[2:]}"
     if U.container_of(L) == "l":
